@@ -191,6 +191,13 @@ for p in props:
     pid = p["id"]
     if pid in CLAIMED and os.path.exists(os.path.join(HERE, "props", pid + ".py")):
         tech, text, note, ref = CLAIMED[pid]
+        # the clause count grew with the rules added later: the authoritative list is DESIGN.md 10.5 / 10.9
+        import re as _re
+        note = _re.sub(r"^(one|two|three|four|five|six|seven) structural clauses? of", "structural clauses of", note)
+        note = _re.sub(r"^(two|three) clauses of", "structural clauses of", note)
+        if "10.5" not in ref:
+            ref += ", sections 10.5 and 10.9 (rules added later, rules per check)"
+        note += " The clauses decided are exactly the rules named under `technique`; each is a necessary condition of the property, none is the property."
         checks.append({
             "property_id": pid,
             "quick_cmd": "./check %s --tier quick" % pid,
